@@ -33,12 +33,12 @@ theorem c02_denotes (env : Env) (henv : env.tgt = .value) (bs : Bytes) (v : JV)
 
 /-- non-vacuity: the hypothesis is satisfiable, on the document ` {"a":[1,true, null,"x\u00e9"] ,"b":-0}␊`
     (all value kinds, whitespace, an escape), and the value is what one expects -/
-example : parseTop ⟨{}, .slice, .value⟩
+example : (parseTop ⟨{}, .slice, .value⟩
     [0x20, 0x7b, 0x22, 0x61, 0x22, 0x3a, 0x5b, 0x31, 0x2c, 0x74, 0x72, 0x75, 0x65, 0x2c, 0x20, 0x6e, 0x75, 0x6c,
      0x6c, 0x2c, 0x22, 0x78, 0x5c, 0x75, 0x30, 0x30, 0x65, 0x39, 0x22, 0x5d, 0x20, 0x2c, 0x22, 0x62, 0x22, 0x3a,
-     0x2d, 0x30, 0x7d, 0x0a] =
-    .ok (.obj [([0x61], .arr [.num (.pos 1), .bool true, .null, .str [0x78, 0xc3, 0xa9]]),
-               ([0x62], .num (.float 0x8000000000000000))]) := rfl
+     0x2d, 0x30, 0x7d, 0x0a]).isOk
+    (.obj [([0x61], .arr [.num (.pos 1), .bool true, .null, .str [0x78, 0xc3, 0xa9]]),
+               ([0x62], .num (.float 0x8000000000000000))]) = true := by decide +kernel
 
 /-- the same with the side conditions packaged as `Spec.Canon.sideConditions` (C01's right-hand side) -/
 theorem c02_side_conditions (env : Env) (henv : env.tgt = .value) (bs : Bytes) (v : JV)
